@@ -205,6 +205,8 @@ int KSI_AsyncSigningHandle_new(KSI_CTX *ctx, KSI_DataHash *rootHash, KSI_uint64_
 
 	res = KSI_OK;
 cleanup:
+	/* On failure the root hash still belongs to the caller. */
+	if (req != NULL) KSI_AggregationReq_setRequestHash(req, NULL);
 	KSI_AggregationReq_free(req);
 	KSI_Integer_free(reqLvl);
 	KSI_AsyncHandle_free(tmp);
